@@ -177,6 +177,8 @@ func ExecuteC10(t *testing.T, plan *Plan) *RunResult {
 			name string
 			rev  int
 		}
+		rmwStatus := map[key]string{}  // status set by read-modify-write since the last create/update
+		effective := map[key]*StoreOp{} // the create/update that produced the content currently stored
 		model := map[key]string{}      // key -> projection
 		modelLabels := map[key]labelT{} // key -> system label view used by queries
 		violate := func(clause, op, cause, detail string, step int) {
@@ -238,6 +240,24 @@ func ExecuteC10(t *testing.T, plan *Plan) *RunResult {
 						r.projs = append(r.projs, c10Proj(rl))
 					}
 					sort.Strings(r.projs)
+				case "rmw":
+					// what the actions do: read the revision through a query, change its status, write the SAME object back
+					rels, err := be.d.Query(map[string]string{"name": op.Name, "owner": "helm"})
+					r.class = "not-found"
+					if err == nil {
+						for _, rl := range rels {
+							if rl.Version == op.Rev {
+								if be.name == "memory" {
+									cp := *rl // the memory driver hands out its own pointers: work on a copy like a careful caller
+									info := *rl.Info
+									cp.Info = &info
+									rl = &cp
+								}
+								rl.Info.Status = release.Status(op.Status)
+								r.class = c10ErrClass(be.d.Update(c10Key(op.Name, op.Rev), rl))
+							}
+						}
+					}
 				}
 				fired := be.proc.DirectFault != nil && be.proc.DirectFault.fired
 				be.proc.DirectFault = nil
@@ -307,7 +327,7 @@ func ExecuteC10(t *testing.T, plan *Plan) *RunResult {
 				} else {
 					want.class = "ok"
 				}
-			case "update":
+			case "update", "rmw":
 				if present {
 					want.class = "ok"
 				} else {
@@ -353,13 +373,13 @@ func ExecuteC10(t *testing.T, plan *Plan) *RunResult {
 				be := bes[bi]
 				if r.class != want.class {
 					// update/delete of a missing key must fail; the error text differs per backend
-					if want.class == "not-found" && r.class == "error" && (op.Op == "update") {
+					if want.class == "not-found" && r.class == "error" && (op.Op == "update" || op.Op == "rmw") {
 						continue
 					}
 					violate("result-class", op.Op, be.name+":"+nameClass, fmt.Sprintf("%s %s/%d on %s answered %q, the reference map says %q", op.Op, op.Name, op.Rev, be.name, r.class, want.class), si)
 					break steps
 				}
-				if want.class == "ok" && op.Op != "create" && op.Op != "update" {
+				if want.class == "ok" && op.Op != "create" && op.Op != "update" && op.Op != "rmw" {
 					if len(r.projs) != len(want.projs) {
 						violate("result-set", op.Op, be.name+":"+nameClass, fmt.Sprintf("%s on %s returned %d release(s), expected %d", op.Op, be.name, len(r.projs), len(want.projs)), si)
 						break steps
@@ -375,7 +395,9 @@ func ExecuteC10(t *testing.T, plan *Plan) *RunResult {
 			// apply to the model
 			switch op.Op {
 			case "create":
+				delete(rmwStatus, k)
 				if !present {
+					effective[k] = op
 					model[k] = c10Proj(c10Release(op, ns))
 					modelLabels[k] = labelT{"name": op.Name, "owner": "helm", "status": op.Status, "version": fmt.Sprint(op.Rev)}
 					for lk, lv := range op.Labels {
@@ -384,6 +406,8 @@ func ExecuteC10(t *testing.T, plan *Plan) *RunResult {
 				}
 			case "update":
 				if present {
+					delete(rmwStatus, k)
+					effective[k] = op
 					model[k] = c10Proj(c10Release(op, ns))
 					modelLabels[k] = labelT{"name": op.Name, "owner": "helm", "status": op.Status, "version": fmt.Sprint(op.Rev)}
 					for lk, lv := range op.Labels {
@@ -394,6 +418,19 @@ func ExecuteC10(t *testing.T, plan *Plan) *RunResult {
 				if present {
 					delete(model, k)
 					delete(modelLabels, k)
+				}
+			case "rmw":
+				if present {
+					// same content, new status
+					src := effective[k]
+					if src != nil {
+						cp := *src
+						cp.Status = op.Status
+						rel := c10Release(&cp, ns)
+						model[k] = c10Proj(rel)
+						modelLabels[k]["status"] = op.Status
+						rmwStatus[k] = op.Status
+					}
 				}
 			}
 			outcome = append(outcome, fmt.Sprintf("%s(%s/%d)=%s", op.Op, op.Name, op.Rev, want.class))
@@ -409,6 +446,20 @@ func ExecuteC10(t *testing.T, plan *Plan) *RunResult {
 }
 
 type labelT map[string]string
+
+// c10ReleaseFromModelOp finds the create/update StoreOp that produced the content currently stored for a key.
+func c10ReleaseFromModelOp(plan *Plan, before int, name string, rev int) *StoreOp {
+	for i := before - 1; i >= 0; i-- {
+		op := plan.Steps[i].Store
+		if op == nil || op.Name != name || op.Rev != rev {
+			continue
+		}
+		if op.Op == "create" || op.Op == "update" {
+			return op
+		}
+	}
+	return nil
+}
 
 // c10ReleaseFromModel finds the StoreOp that produced the model's current value for a key.
 func c10ReleaseFromModel(plan *Plan, before int, name string, rev int, ns string) *release.Release {
@@ -481,7 +532,10 @@ func genC10(seed, index uint64, tier string) *Plan {
 	}
 	for i := 0; i < n; i++ {
 		op := &StoreOp{Name: names[g.N(len(names))], Rev: 1 + g.N(4)}
-		switch g.Weighted(6, 4, 4, 3, 2, 4) {
+		switch g.Weighted(6, 4, 4, 3, 2, 4, 3) {
+		case 6:
+			op.Op = "rmw"
+			op.Status = c10Statuses[g.N(len(c10Statuses))]
 		case 0:
 			op.Op = "create"
 		case 1:
@@ -518,7 +572,7 @@ func genC10(seed, index uint64, tier string) *Plan {
 				op.Labels = map[string]string{"team": g.Pick("red", "blue"), "verif.example/x": "y_1.2"}
 			}
 		}
-		if faulty && g.Chance(0.25) && op.Op != "list" && op.Op != "query" {
+		if faulty && g.Chance(0.25) && op.Op != "list" && op.Op != "query" && op.Op != "rmw" {
 			f := FaultSpec{K: 1 + g.N(2)}
 			switch g.N(3) {
 			case 0:
